@@ -284,11 +284,6 @@ class World:
                 t = None
                 for ts in self.timer_sources:
                     v = ts()
-                    if v is not None and v <= self.now:
-                        # a timer that is already due although nothing is runnable: its loop is blocked inside a handle
-                        # (waiting for another thread) and cannot fire it before that wait ends - it is not what the
-                        # world is waiting for.  (Jumping "to" it would leave the clock where it is, for ever.)
-                        continue
                     if v is not None and (t is None or v < t):
                         t = v
                 if t is None:
